@@ -15,12 +15,12 @@ def nontrivial(d):
 # the known classes (an unexplained failure in the same case keeps the case a violation).
 
 # F-C17-1: types that contain a `skip_serializing_if` field which is actually skipped in the state reached
-T_BIN_SKIPPED = {"FuelConverter.init40", "Locomotive.init40", "LocomotiveSimulation.init40", "Consist.init40", "Locomotive.relaxed", "Locomotive.mu", "LocomotiveSimulation.relaxed", "SpeedLimitTrainSim.mu", "FuelConverter", "Generator", "ElectricDrivetrain", "ElectricDrivetrain.bel", "ReversibleEnergyStorage",
+T_BIN_SKIPPED = {"SetSpeedTrainSim.grades", "FuelConverter.init40", "Locomotive.init40", "LocomotiveSimulation.init40", "Consist.init40", "Locomotive.relaxed", "Locomotive.mu", "LocomotiveSimulation.relaxed", "SpeedLimitTrainSim.mu", "FuelConverter", "Generator", "ElectricDrivetrain", "ElectricDrivetrain.bel", "ReversibleEnergyStorage",
                  "Locomotive.conv", "Locomotive.bel", "Locomotive.hybrid", "Consist", "LocomotiveSimulation", "LocomotiveSimulation.bel",
                  "LocomotiveSimulationVec", "ConsistSimulation", "SetSpeedTrainSim", "SetSpeedTrainSim.default",
                  "Network", "TrainConfig", "TrainSimBuilder", "TrainSimBuilder.init", "TrainSimBuilder.nan"}
 # F-C17-2: types that contain a `Location`
-T_BIN_LOCATION = {"Location", "SpeedLimitTrainSim", "SpeedLimitTrainSim.finished"}
+T_BIN_LOCATION = {"Location", "Location.bounds", "SpeedLimitTrainSim", "SpeedLimitTrainSim.finished", "SpeedLimitTrainSim.grades"}
 # F-C17-3: types that contain a non-finite number in the state reached
 T_JSON_NONFINITE = {"SpeedLimitTrainSim.mu", "PathTpc.finished", "SpeedLimitTrainSim.finished", "SetSpeedTrainSim.default", "TrainSimBuilder.nan"}
 
@@ -91,7 +91,8 @@ CORRUPT = {
 
 
 RULE = ("cases = every schedule over {step, yaml, json, bin} that TLC enumerates for every object kind in the bounded "
-        "Checkpoint configs (each step index is a checkpoint position) + pinned (kind x format) cases through temp files + "
+        "Checkpoint configs (each step index is a checkpoint position) + pinned (kind x format) cases through temp files (incl. "
+        "index newtypes at 0, 1, u32::MAX-1, u32::MAX) + pinned train runs on a multi-grade corridor checkpointed 30..630 steps in + "
         "seeded random schedules on toy (dyadic) and realistic-scale objects with checkpoints up to 400 steps into a run; "
         "distinct = distinct case descriptors; non-trivial = at least one save/load followed by a step / use")
 
